@@ -84,7 +84,7 @@ TameBound(e) == (4 * InMag(e) + 64) * ResUnits(e) + 2 * (IF "delta4" \in DOMAIN 
 OutMag(e) ==
   LET flds == <<"sol", "solOpen", "uni", "flat", "res", "i", "u", "d", "x", "d2", "us", "uc", "us2", "solSwap", "solClosed", "freshPerm">>
       f[n \in 0..Len(flds)] == IF n = 0 THEN 0 ELSE Max2(f[n - 1], AbsMaxPaths(Fld(e, flds[n])))
-      t == IF "tree" \in DOMAIN e THEN AbsMaxPaths([k \in 1..Len(e.tree) |-> e.tree[k].poly]) ELSE 0
+      t == IF e.ev \in {"TreeOp", "OpenOp", "EngExec"} THEN AbsMaxPaths([k \in 1..Len(e.tree) |-> e.tree[k].poly]) ELSE 0
       r == IF "rings" \in DOMAIN e THEN AbsMaxPaths([k \in 1..Len(e.rings) |-> e.rings[k].pts]) ELSE 0
       v == IF e.ev = "MagGroup" THEN AbsMaxPaths([n \in 1..Len(e.vars) |-> <<<<AbsMaxPaths(e.vars[n].q), 0>>>>])
            ELSE IF e.ev = "BoolVariants" THEN AbsMaxPaths([n \in 1..Len(e.vars) |-> <<<<AbsMaxPaths(e.vars[n].sol), 0>>>>])
